@@ -219,6 +219,8 @@ def run_models(ctx, exe, drv, cases):
         r["pred"] = [l for l in lb if l.startswith("W ")]
         r["spec"] = ["W" + l[1:] for l in lb if l.startswith("G ")]
         r["fixed_pred"] = ["W" + l[1:] for l in lb if l.startswith("V ")]
+        r["fixed_spec"] = ["W" + l[1:] for l in lb if l.startswith("H ")]
+        r["cfg"] = ([l for l in lb if l.startswith("CFG")] or [""])[0]
         r["real"] = norm_w([l for l in r["raw"] if l.startswith("W ")], tks[cid])
         r["lean_ok"] = bool(lb)
     return res
@@ -263,6 +265,7 @@ def judge(r):
         # the repaired writer; endpoints of branchpoint edges are not part of the property
         mism = "model predicts a crash (%s), the writer survived" % ",".join(s for s in shapes if s.startswith("crash:"))
         pred = [l for l in r["fixed_pred"] if not l.startswith("W branchpoint")]
+        spec = r["fixed_spec"]
         shapes = [s for s in shapes if not s.startswith("crash:")]
     else:
         pred = r["pred"]
@@ -271,31 +274,82 @@ def judge(r):
         if predw != spec:
             mism = (mism + "; " if mism else "") + "model predicts a deviation (%s) that the library does not show" % ",".join(shapes)
         return known, viol, mism
-    if realw == predw:
+    if not (len(realw) == len(spec) == len(predw)):
         d = m.first_diff(realw, spec)
-        for s in shapes:
-            known.append((s, SHAPE_TEXT.get(s, s) + (": written %r, document has %r" % (d[1], d[2]) if len(shapes) == 1 else "")))
-        if not shapes:
-            viol.append(("model:deviation-without-shape", repr(d)))
+        viol.append(("written:" + field_key(d[1], d[2]), "written file has %r, document has %r" % (d[1], d[2])))
         return known, viol, mism
-    d = m.first_diff(realw, predw)
-    viol.append(("written:" + field_key(d[1], d[2]), "written file has %r, expected %r" % (d[1], d[2])))
+    # field by field: every field is either what the document says, or exactly the deviation the writer model predicts
+    for lr, lp, ls in zip(realw, predw, spec):
+        if lr == ls:
+            continue
+        fr, fp, fs = fields(lr), fields(lp), fields(ls)
+        for k in sorted(set(fr) | set(fs)):
+            vr, vp, vs = fr.get(k), fp.get(k), fs.get(k)
+            if vr == vs:
+                continue
+            if vr == vp:
+                for sh in shape_of_field(k, vp, vs):
+                    known.append((sh, SHAPE_TEXT.get(sh, sh) + ": written %s=%s, document has %s=%s" % (k, vr, k, vs)))
+                    if sh not in shapes:
+                        viol.append(("model:shape-not-computed/" + sh, "deviation %s without its shape in the computed set %r" % (k, shapes)))
+            else:
+                viol.append(("written:%s/%s" % (fr.get("_kind", "line"), k),
+                             "written file has %s=%s, document has %s=%s (writer model: %s) in %r" % (k, vr, k, vs, vp, lr)))
+    if not known and not viol:
+        mism = (mism + "; " if mism else "") + "lines differ but no field does"
     return known, viol, mism
+
+
+def fields(line):
+    w = line.split(" ")
+    f = {"_kind": w[1] if len(w) > 1 else "line"}
+    if f["_kind"] == "transition" and len(w) > 4:
+        f["source"], f["target"] = w[2], w[4]
+        rest = w[5:]
+    else:
+        rest = w[2:]
+    for x in rest:
+        if "=" in x:
+            k, v = x.split("=", 1)
+            f[k] = v
+        else:
+            f["_" + x] = x
+    return f
+
+
+def shape_of_field(k, vp, vs):
+    if k == "controllable":
+        return ["edge:controllable-false-not-written"]
+    if k == "probability":
+        return ["edge:probability-not-written"]
+    if k == "select":
+        out = []
+        spec_b = (vs or "").split(",~")
+        if len(spec_b) > 1:
+            out.append("edge:select-bindings-after-first-not-written")
+        if (vp or "") != spec_b[0]:
+            out.append("edge:select-type-not-written")
+        return out
+    return ["field:" + k]
 
 
 def run(ctx):
     cov = ctx.coverage
+    if not m.regen_tables(ctx):
+        return
     ok, log = ctx.prove(MODULE, ["drv_c20"])
+    broken = []
     if not ok:
         broken = core.failing_theorems(log)
-        for path, thm, msg in (broken or [("?", "lake build", log[-300:])]):
-            ctx.proof_broken(thm, msg + "\n" + log[-2000:], "hand-written model: a broken proof is a defect of /verif")
+        ctx.log("proof broken:", broken or log[-1500:])
         if not os.path.exists(core.lean_exe("drv_c20")):
+            for path, thm, msg in (broken or [("?", "lake build", log[-300:])]):
+                ctx.proof_broken(thm, msg + "\n" + log[-2000:], "nothing could be run")
             return
     b = core.build_repo("asan")
     exe = core.build_harness(b, "c04", ["c04.cpp"])
     drv = core.lean_exe("drv_c20")
-    n = 1600 if not ctx.thorough else 30000
+    n = 1600 if not ctx.thorough else 15000
     cases, models = {}, {}
     for i in range(n):
         r = random.Random(ctx.rng.getrandbits(48))
@@ -365,6 +419,9 @@ def run(ctx):
     if mismatches and not viol_cases:
         ctx.notes.append("writer model predicts deviations the library no longer shows: %r" % mismatches[:3])
         cov["model_stale"] = mismatches[:5]
+    if not ok and not [v for v in ctx.violations if not v[3]]:
+        for path, thm, msg in (broken or [("?", "lake build", log[-300:])]):
+            ctx.proof_broken(thm, msg + "\n" + log[-2000:], "oracle on the generated models of the real library: no failing input")
     ctx.assumptions += [
         "label texts are the printed expressions (expression_t::str), opaque except for the text \"1\" and the prefix \"1 && \" that "
         "XMLWriter::label inspects; a leading \"1 && \" (how the type checker stores invariants) is not part of the required text",
